@@ -25,3 +25,25 @@ func (g walkGuard) enter(frame, class string) bool {
 
 	return true
 }
+
+// AddParentNode records parentNode as an ancestor of classNode. The implicit
+// Object ancestor is registered first but is searched last: explicit ancestors
+// go ahead of it.
+func AddParentNode(classNode ClassNode, parentNode ClassNode) {
+	objectNode := ClassNode{Frame: "Builtin", Class: ""}
+	parents := ClassInheritanceMap[classNode]
+
+	for idx, node := range parents {
+		if node == objectNode {
+			updated := make([]ClassNode, 0, len(parents)+1)
+			updated = append(updated, parents[:idx]...)
+			updated = append(updated, parentNode)
+			updated = append(updated, parents[idx:]...)
+			ClassInheritanceMap[classNode] = updated
+
+			return
+		}
+	}
+
+	ClassInheritanceMap[classNode] = append(parents, parentNode)
+}
